@@ -114,6 +114,11 @@ def level(draw, layout: tlv.Layout, depth: int, desc: list) -> list:
                 node.value = bytes(v)
             elif roll == 2:
                 node.value = node.value[: draw(st.integers(0, len(node.value)))]
+            elif roll == 3 and node.value:
+                # the values a float / counter field has no good rendering for
+                fill = draw(st.sampled_from([b'\xff', b'\x00', b'\x7f\xc0\x00\x00', b'\x7f\x80\x00\x00', b'\xff\x80\x00\x00']))
+                node.value = (fill * len(node.value))[: len(node.value)]
+                desc.append(f'{layout.name}:{t}:extreme-value')
         out.append(node)
     if out and draw(st.integers(0, 2)) == 0:
         twin = draw(st.sampled_from(out)).copy()
